@@ -3,6 +3,7 @@
 #pragma once
 #include <set>
 #include "../scaledval.h"
+#include "../sweep.h"
 
 #include <cnl/all.h>
 
@@ -661,5 +662,54 @@ struct WrapRep {
     {
         add_site({std::string(Total ? "C07" : "C06") + "|wrapper-rep|" + tag_info<Tag>::name + "|" + name, run, 0, nullptr});
     }
+};
+////////////////////////////////////////////////////////////////////////////////
+// scaled_integer over an overflow_integer: bringing a value to a finer exponent (construction, +, comparison with a finer operand)
+// multiplies the checked representation by 2^Gap. Exact when rep * 2^Gap fits the representation, else the tag's handling; never UB,
+// whatever the gap (also gaps wider than the representation, where only 0 can be brought over).
+template<class Tag, class Rep, int Gap, bool Total>
+struct ScaledOvf {
+    using O = cnl::overflow_integer<Rep, Tag>;
+    using S0 = cnl::scaled_integer<O, cnl::power<0>>;
+    using S1 = cnl::scaled_integer<O, cnl::power<-Gap>>;
+    static char const* opname(int op)
+    {
+        static char const* n[] = {"to-finer", "plus-finer-zero", "equals-finer"};
+        return n[op];
+    }
+    static void run(Words& w, Outcome& o, std::string* d)
+    {
+        int op = int(draw_small(w, 0, 2));
+        Rep v = draw_int<Rep>(w);
+        unsigned m = unsigned(w.next() % 4);
+        if (m == 0) v = 0;
+        if (m == 1) v = static_cast<Rep>(draw_small(w, -3, 3));
+        if (!is_signed_int_v<Rep> && to_mpz(v) < 0) v = 1;
+        mpz_class z = to_mpz(v);
+        if (d) *d = std::string(opname(op)) + " gap=" + std::to_string(Gap) + " rep=" + zstr(z);
+        o.fp = fpn(z, op, Gap);
+        mpz_class exact = z << Gap, lo = zmin<Rep>(), hi = zmax<Rep>();
+        int region = region_of(exact, lo, hi);
+        std::string const prefix = std::string("scaled-overflow/") + opname(op) + "/none";
+        Obs obs;
+        observe(o, obs, [&] {
+            S0 s0 = cnl::_impl::from_rep<S0>(cnl::_impl::from_rep<O>(v));
+            if (op == 0) return rep_mpz(S1{s0});
+            if (op == 1) return rep_mpz(S1{s0 + S1{}});
+            S1 s1{};
+            return mpz_class((s0 == s1) == (v == 0) ? exact : mpz_class(exact + 1));
+        });
+        if (obs.trapped) {
+            o.fclass = prefix + "/" + o.fclass;
+            return;
+        }
+        if constexpr (Total) return o.pass(v == 0 || region != 0, opname(op));
+        // exactness is only demanded where the factor 2^Gap exists in the representation (as for C01: beyond that no non-zero value
+        // can be brought over, and for zero the pinned tree signals the overflow of the factor: loud, and no UB, which is all C07 asks)
+        if (!fits<Rep>(mpz_class(1) << Gap)) return o.discard("alignment-factor-does-not-fit");
+        if (op == 2 && region != 0) return o.pass(true, "compared-out-of-range");  // a comparison may or may not signal there: C03's business
+        judge<Tag>(prefix, region, exact, lo, hi, obs, o, true, opname(op));
+    }
+    static void reg(char const*) {}
 };
 }  // namespace c06
